@@ -40,23 +40,23 @@ type Reader struct {
 
 // Scenario is one C17 run.
 type Scenario struct {
-	Seed     uint64        `json:"seed"`
-	Kind     string        `json:"kind"` // media | downgrade
-	Net      simnet.Config `json:"net"`
-	Formats  []int         `json:"formats"`
-	Source   string        `json:"source"` // stream | publisher
-	PubTr    string        `json:"pub_transport,omitempty"`
+	Seed    uint64        `json:"seed"`
+	Kind    string        `json:"kind"` // media | downgrade
+	Net     simnet.Config `json:"net"`
+	Formats []int         `json:"formats"`
+	Source  string        `json:"source"` // stream | publisher
+	PubTr   string        `json:"pub_transport,omitempty"`
 	// PubAVP: the TCP publisher announces the plain profile (RTP/AVP inside TLS): the session
 	// then does not use the secure profile and the frame-level oracle does not apply to it.
-	PubAVP bool `json:"pub_avp,omitempty"`
-	Readers  []Reader      `json:"readers"`
-	Packets  int           `json:"packets"`
-	IntUS    int           `json:"interval_us"`
-	StartSeq uint16        `json:"start_seq"`
+	PubAVP   bool     `json:"pub_avp,omitempty"`
+	Readers  []Reader `json:"readers"`
+	Packets  int      `json:"packets"`
+	IntUS    int      `json:"interval_us"`
+	StartSeq uint16   `json:"start_seq"`
 	// PerSession (source stream): the application writes every packet with ServerSession.WritePacketRTP
 	// / WritePacketRTCP to each session that is playing, instead of through the ServerStream.
 	PerSession bool `json:"per_session,omitempty"`
-	Case     int           `json:"case,omitempty"` // downgrade case
+	Case       int  `json:"case,omitempty"` // downgrade case
 }
 
 func gen(seed uint64, tier string) Scenario {
